@@ -77,6 +77,45 @@ func (g *G) stTypeSwitch() Tri {
 	return lines(decl, sw, as, printCall(same(quote("assert "+att[Wa])), same(av), same(ok)))
 }
 
+// stTupleAssign: `a, b = b, a` / `a, b = e1, e2` — all right-hand sides (and index
+// operands on the left) are evaluated before any assignment happens.
+func (g *G) stTupleAssign() Tri {
+	t := scalarTypes[g.n(0, len(scalarTypes)-1, "tupT")]
+	ps := g.places(t, true)
+	if len(ps) < 2 {
+		return g.stAssign()
+	}
+	i := g.n(0, len(ps)-1, "tupA")
+	j := g.n(0, len(ps)-2, "tupB")
+	if j >= i {
+		j++
+	}
+	a, b := ps[i], ps[j]
+	g.feat("tuple-assign")
+	if (a.Root != nil && a.Root.Global) || (b.Root != nil && b.Root.Global) {
+		g.feat("global-write")
+	}
+	if g.coin("swap") {
+		return tf("%s, %s = %s, %s", a.E, b.E, b.E, a.E)
+	}
+	// right-hand sides that read both targets
+	e1 := tf("%s", b.E)
+	e2 := tf("%s", a.E)
+	switch {
+	case t.IsInt():
+		e1 = tf("(%s + %s)", a.E, b.E)
+		e2 = tf("(%s ^ %s)", a.E, g.gen(t, 1).E)
+	case t.IsFloat():
+		e1 = tf("(%s - %s)", b.E, a.E)
+	case t.K == KString:
+		g.needScap()
+		e1 = tf("scap(%s + %s)", b.E, a.E)
+	case t.K == KBool:
+		e1 = tf("(!%s)", b.E)
+	}
+	return tf("%s, %s = %s, %s", a.E, b.E, e1, e2)
+}
+
 // stSliceSpread: append(s, t...) and copy(dst, src) between slice variables.
 func (g *G) stSliceSpread() Tri {
 	vs := g.varsOf(func(v *Var) bool {
